@@ -1180,6 +1180,11 @@ func ruleQueueDiscipline(c *Ctx, rule string) {
 			okWait = inLoop(waits[0].Block()) && reaches(waits[0], front[0])
 		}
 		c.check(okWait, rule, name+": waits in a loop that re-tests the queue", w.Pos(fn.Pos()), "cond.Wait inside the loop; Front() re-evaluated after waking", "dequeue does not re-test the queue after cond.Wait returns (spurious or stale wake-ups would return garbage)")
+		// ... and only while the stream is neither closed nor cancelled: both flags are tested (false) on the way to the wait
+		if len(waits) == 1 {
+			okFlags := fieldFlagFact(waits[0], cancelFlag, false) != nil && fieldFlagFact(waits[0], closedFlag, false) != nil
+			c.check(okFlags, rule, name+": waits only while neither closed nor cancelled", w.At(waits[0]), "reached under !"+cancelFlag.Field+" && !"+closedFlag.Field, "dequeue goes (back) to sleep without having tested both "+cancelFlag.String()+" and "+closedFlag.String()+": the Broadcast of cancel() / close() wakes it, it finds the queue empty and waits again — a reader is never released by cancellation (deadline, client cancel) or by end-of-stream")
+		}
 	}
 	closedFlag, cancelFlag := c.closeCancelFlags(r)
 	// close() never empties the queue; cancel() may
